@@ -4,6 +4,7 @@ import (
 	"context"
 	"fmt"
 	"net/http"
+	gopath "path"
 	"strings"
 	"sync"
 	"time"
@@ -55,6 +56,10 @@ func OpenKV(ctx context.Context, s3opts S3Options, subdir string) (*KV, error) {
 		c = client
 	}
 	path := strings.TrimPrefix(strings.TrimPrefix(strings.TrimSuffix(s3opts.Prefix, "/"), "/")+"/"+strings.TrimPrefix(subdir, "/"), "/")
+	// The SDK cleans the URL path of the requests that name an object (a//b, ./a and a/../b
+	// become a/b, a and b) but not the prefix of a listing: use the clean form for both,
+	// or nothing that is written under such a prefix is ever listed.
+	path = strings.TrimPrefix(gopath.Clean("/"+path), "/")
 
 	cfg := kv.Config{
 		Storage: &kv.S3BucketInfo{
